@@ -1,4 +1,6 @@
 import FlVerif.Lemmas.FllRepresentable
+import FlVerif.Lemmas.CodeFllExportNamed
+import FlVerif.Lemmas.CodeFllExportFormat
 
 /-! # C14 — FuzzyLite Language export / import round-trips engines
 
@@ -219,5 +221,128 @@ example : Stable (keepHeightPinned sampleCfg) sampleCfg sample := by
   intro h hh; revert h; decide +kernel
 example : ¬ Stable (keepHeightPinned f11Cfg) f11Cfg f11Engine :=
   (pinned_unstable_iff f11Cfg f11Engine).2 ⟨.fin (9986/10000), by decide +kernel, by decide +kernel, by decide +kernel⟩
+
+
+/-! ## Tie A: exporter
+
+The functions of `exporter.py` (`FllExporter`), `Term._parameters` / `parameters()` and `Rule.text`, regenerated from
+the current source (`Gen/CodeFllExport.lean`), return the *text of the tokens* the export side of the model
+produces: a line is `key: tok tok …` (`Py.Fll.Line.body`, numbers printed by `Dec.render ∘ Dec.fmt`), the lines
+of a component are the header line and the indented other lines (`Py.Fll.blockStrs`), joined by the separator.
+`Op.str(x)` is the printed number `Dec.fmt`, `to_float` of it its value `Dec.val` (the trusted CPython step of
+this property).  Side conditions: class names are not empty (`Py.Fll.*Named`; they hold for every well-formed
+engine by the regenerated tables, `exporter_side_conditions`) and, for `Rule.text`, the rule has an antecedent
+and a consequent (otherwise Python prints two adjacent spaces where the model has no token). -/
+
+/-- `Term._parameters(*args)`: the arguments and the height, the height under the current (repaired, F11) rule -/
+theorem code_termParameters (c : Cfg) (args : List Num) (h : Num) :
+    ∃ σ, Gen.Code.Term_parameters.run c args h {} = .ok σ ∧
+      σ.ret = some (Py.joinSp ((termParams (keepHeight c) c (.shape args (some h))).map (Tok.render c.d))) :=
+  Py.Fll.code_termParameters c args h
+
+/-- `Triangle.parameters`: left, top, right, then the height -/
+theorem code_triangleParameters (c : Cfg) (left top right h : Num) :
+    ∃ σ, Gen.Code.Triangle_parameters.run c left top right h {} = .ok σ ∧
+      σ.ret = some (Py.Fll.termParameters c (.shape [left, top, right] (some h))) :=
+  Py.Fll.code_triangleParameters c left top right h
+
+/-- `Constant.parameters`: the value – and the inherited attribute `height` under the same rule (the model's
+    `.shape [v] none` is the case in which it is not printed, `Py.Fll.parameters_no_height`) -/
+theorem code_constantParameters (c : Cfg) (value h : Num) :
+    ∃ σ, Gen.Code.Constant_parameters.run c value h {} = .ok σ ∧
+      σ.ret = some (Py.Fll.termParameters c (.shape [value] (some h))) :=
+  Py.Fll.code_constantParameters c value h
+
+/-- `Linear.parameters`: the coefficients – and the inherited attribute `height` (as for `Constant`) -/
+theorem code_linearParameters (c : Cfg) (coefficients : List Num) (h : Num) :
+    ∃ σ, Gen.Code.Linear_parameters.run c coefficients h {} = .ok σ ∧
+      σ.ret = some (Py.Fll.termParameters c (.shape coefficients (some h))) :=
+  Py.Fll.code_linearParameters c coefficients h
+
+/-- `Rule.text` (getter): `if … then … [with w]` -/
+theorem code_ruleText (c : Cfg) (r : Rule) (hr : Py.Fll.ruleNamed r) :
+    ∃ σ, Gen.Code.Rule_text.run c r {} = .ok σ ∧
+      σ.ret = some (Py.joinSp ((ruleToks (keepHeight c) c r).map (Tok.render c.d))) :=
+  Py.Fll.code_ruleText c r hr
+
+/-- `FllExporter.format(key, value)` for every value (`Py.Fll.Val`: string, `None`, bool, float, nested tuples, any
+    other object by its `str`): the recursion over tuples, with empty pieces dropped – `Py.Fll.format` is what the
+    other exporter functions below call -/
+theorem code_fllFormat (d : ℕ) (key : String) (v : Py.Fll.Val) :
+    ∃ σ, Gen.Code.FllExporter_format.run d key v {} = .ok σ ∧ σ.ret = some (Py.Fll.format d key v) :=
+  Py.Fll.code_fllFormat d key v
+
+/-- `FllExporter.term` -/
+theorem code_fllExportTerm (c : Cfg) (indent sep : String) (t : Term) (ht : Py.Fll.termNamed t) :
+    ∃ σ, Gen.Code.FllExporter_term.run c indent sep t {} = .ok σ ∧
+      σ.ret = some (Py.Fll.Line.body c.d (termLine (keepHeight c) c t)) :=
+  Py.Fll.code_fllExportTerm c indent sep t ht
+
+/-- `FllExporter.norm` -/
+theorem code_fllExportNorm (c : Cfg) (indent sep : String) (o : Option String) :
+    ∃ σ, Gen.Code.FllExporter_norm.run c indent sep o {} = .ok σ ∧ σ.ret = some (Tok.render c.d (normTok o)) :=
+  Py.Fll.code_fllExportNorm c indent sep o
+
+/-- `FllExporter.activation` -/
+theorem code_fllExportActivation (c : Cfg) (indent sep : String) (a : Option Activ) (h : Py.Fll.activNamed a) :
+    ∃ σ, Gen.Code.FllExporter_activation.run c indent sep a {} = .ok σ ∧
+      σ.ret = some (Py.joinSp ((activToks c a).map (Tok.render c.d))) :=
+  Py.Fll.code_fllExportActivation c indent sep a h
+
+/-- `FllExporter.defuzzifier` -/
+theorem code_fllExportDefuzzifier (c : Cfg) (indent sep : String) (x : Option Defuzz) (h : Py.Fll.defuzzNamed x) :
+    ∃ σ, Gen.Code.FllExporter_defuzzifier.run c indent sep x {} = .ok σ ∧
+      σ.ret = some (Py.joinSp ((defuzzToks x).map (Tok.render c.d))) :=
+  Py.Fll.code_fllExportDefuzzifier c indent sep x h
+
+/-- `FllExporter.rule` -/
+theorem code_fllExportRule (c : Cfg) (indent sep : String) (r : Rule) :
+    ∃ σ, Gen.Code.FllExporter_rule.run c indent sep r {} = .ok σ ∧
+      σ.ret = some (Py.Fll.Line.body c.d (ruleLine (keepHeight c) c r)) :=
+  Py.Fll.code_fllExportRule c indent sep r
+
+/-- `FllExporter.variable(variable, terms)`; `hdr` is the key of the class name of the variable -/
+theorem code_fllExportVariable (c : Cfg) (indent sep : String) (hdr : Key) (v : Var) (terms : Bool)
+    (hh : hdr.text ≠ "") :
+    ∃ σ, Gen.Code.FllExporter_variable.run c indent sep hdr v terms {} = .ok σ ∧
+      σ.ret = some (Py.Fll.join sep (Py.Fll.blockStrs indent c.d
+        (varHead c hdr v ++ (if terms then v.terms.map (termLine (keepHeight c) c) else [])))) :=
+  Py.Fll.code_fllExportVariable c indent sep hdr v terms hh
+
+/-- `FllExporter.input_variable` -/
+theorem code_fllExportInputVariable (c : Cfg) (indent sep : String) (v : Var) :
+    ∃ σ, Gen.Code.FllExporter_input_variable.run c indent sep v {} = .ok σ ∧
+      σ.ret = some (Py.Fll.join sep (Py.Fll.blockStrs indent c.d (inputLines (keepHeight c) c v))) :=
+  Py.Fll.code_fllExportInputVariable c indent sep v
+
+/-- `FllExporter.output_variable` -/
+theorem code_fllExportOutputVariable (c : Cfg) (indent sep : String) (o : OutVar)
+    (ha : Py.Fll.normNamed o.aggregation) (hd : Py.Fll.defuzzNamed o.defuzzifier) :
+    ∃ σ, Gen.Code.FllExporter_output_variable.run c indent sep o {} = .ok σ ∧
+      σ.ret = some (Py.Fll.join sep (Py.Fll.blockStrs indent c.d (outputLines (keepHeight c) c o))) :=
+  Py.Fll.code_fllExportOutputVariable c indent sep o ha hd
+
+/-- `FllExporter.rule_block` -/
+theorem code_fllExportRuleBlock (c : Cfg) (indent sep : String) (b : Block) (hb : Py.Fll.blockNamed b) :
+    ∃ σ, Gen.Code.FllExporter_rule_block.run c indent sep b {} = .ok σ ∧
+      σ.ret = some (Py.Fll.join sep (Py.Fll.blockStrs indent c.d (blockLines (keepHeight c) c b))) :=
+  Py.Fll.code_fllExportRuleBlock c indent sep b hb
+
+/-- `FllExporter.engine`: the lines of `fllExport`, header lines not indented, and the trailing empty line -/
+theorem code_fllExportEngine (c : Cfg) (indent sep : String) (e : Engine) :
+    ∃ σ, Gen.Code.FllExporter_engine.run c indent sep e {} = .ok σ ∧
+      σ.ret = some (Py.Fll.join sep ((fllExport c e).map (Py.Fll.lineText indent c.d) ++ [""])) :=
+  Py.Fll.code_fllExportEngine c indent sep e
+
+/-- with the default indent and separator the text of `code_fllExportEngine` is the text the driver renders from the
+    model lines (`Op.FllIO.renderLines`), i.e. the text the correspondence runs compare with the real exporter's -/
+theorem exporter_text_is_driver_text (c : Cfg) (e : Engine) :
+    Py.Fll.join "\n" ((fllExport c e).map (Py.Fll.lineText "  " c.d) ++ [""]) = renderLines c.d (fllExport c e) :=
+  Py.Fll.engine_text_default c e
+
+/-- the side conditions hold for the engines of the round-trip theorems (regenerated tables, `decide`) -/
+theorem exporter_side_conditions (e : Engine) (h : WellFormed e) :
+    Py.Fll.engineNamed e ∧ ∀ b ∈ e.blocks, ∀ r ∈ b.rules, Py.Fll.ruleNamed r :=
+  ⟨Py.Fll.wellFormed_named e h, fun b hb r hr => Py.Fll.ruleOK_named r ((h.2.2 b hb).2.2.2.2 r hr)⟩
 
 end C14
